@@ -290,6 +290,7 @@ def strategy(args: dict) -> st.SearchStrategy:
 
 def run(ctx: Ctx) -> None:
     ctx.rule = (
+        "(every second package reuses names across positions: all function parameters are called x, instance attribute i is named like the constructor parameter of term i+1) "
         "annotation terms: all terms of depth<=1 over the full alphabet (13 leaves, 8 unary, 7 binary constructors), "
         "depth-2 terms over the reduced alphabet (every 5th in quick, all in thorough), Hypothesis-drawn terms to "
         "depth 3-4; each in 5 positions. evaluations = judged (term, position) pairs; non-trivial = term of depth>=2 or "
